@@ -245,6 +245,48 @@ def session(h, drv, n, variant, thread_us, clean, tag):
     return findings, info
 
 
+def stray_cancel_session(h, drv, when, clean, tag):
+    """cancel() arrives while NO build is running (before the first build, or between two builds) on a frontend that is
+    then reused: at most the next build may be refused; the one after it must succeed and equal a clean build."""
+    S = os.path.join(BASE, "s%d_%s" % (h["idx"], tag))
+    prepare(S, h)
+    c10.apply_state(S, h, 0, True)
+    c10.apply_state(S, h, 1, False)           # nothing fails: the repaired state
+    findings, trace = [], []
+    def add(key, what, extra=None):
+        d = dict(sandbox=S, lanes=h["lanes"], stray_cancel=when, description=c10.description(h), trace=trace); d.update(extra or {})
+        findings.append((key, what, d))
+    p = open_frontend(drv, S, h["lanes"])
+    info = dict(cancelled=False, interrupted=False, builds=0)
+    try:
+        if when == "between":
+            a = p.ask("fbuild - 0 - -"); r = parse(a); info["builds"] += 1
+            if r is None:
+                add("bs-hang" if a == "TIMEOUT" else "bs-driver-died", "the first build did not return"); p.close(kill=True); return findings, info
+            trace.append(dict(build="first", ok=r["ok"], events=r["events"]))
+            if not r["ok"] and clean[0]:
+                add("bs-next-build-fails", "a plain first build fails although a clean build succeeds")
+        a = p.ask("fcancel", timeout=30)
+        trace.append(dict(stray_cancel=a))
+        last = None
+        for i in (1, 2):
+            a = p.ask("fbuild - 0 - -"); r = parse(a); info["builds"] += 1
+            if r is None:
+                add("bs-hang" if a == "TIMEOUT" else "bs-driver-died", "build %d after a stray cancel did not return" % i); p.close(kill=True); return findings, info
+            trace.append(dict(build="after-cancel-%d" % i, ok=r["ok"], failures=r["failures"], events=r["events"]))
+            last = r
+        st = c10.final_state(S, h)
+        if clean[0] and (not last["ok"] or st != clean[1]):
+            add("bs-stray-cancel-sticks", "cancel() was requested while no build was running (%s); the SECOND build after it on the same frontend %s: the stray cancel is never cleared"
+                % ("before the first build" if when == "before" else "between two builds", "still fails" if not last["ok"] else "leaves outputs that differ from a clean build"))
+        p.ask("close", timeout=30); p.close()
+    except Exception:
+        p.close(kill=True); raise
+    if not findings:
+        shutil.rmtree(S, ignore_errors=True)
+    return findings, info
+
+
 def bs_cancel_part(chk, budget_s=None):
     budget = budget_s if budget_s is not None else chk.n(32, 600)
     drv = vlib.build_drivers(["bsys_driver"])["bsys_driver"]
@@ -273,10 +315,15 @@ def bs_cancel_part(chk, budget_s=None):
         for k in range(chk.n(2, 6)):
             us = int(rng.random() * dt * 1e6)
             jobs.append((h, 0, "new", us, clean, "t%d" % k))
+        if demo or hi < 5 or not chk.quick():
+            for when in ("before", "between"):
+                jobs.append((h, "stray", when, None, clean, "stray-" + when))
     results = []
     def run_job(j):
         if time.time() - t0 > budget:
             return None
+        if j[1] == "stray":
+            return stray_cancel_session(j[0], drv, j[2], j[4], j[5])
         return session(j[0], drv, j[1], j[2], j[3], j[4], j[5])
     with ThreadPoolExecutor(max_workers=4) as ex:
         results = list(ex.map(run_job, jobs))
